@@ -44,6 +44,16 @@ func (s *memStub) Tick() bool {
 	progress := false
 
 	for {
+		// a slow memory: it takes one request every MemAcceptEvery cycles, so that
+		// its port fills up and the unit above meets back-pressure on its way down
+		if k := uint64(s.w.C.MemAcceptEvery); k > 1 && (now/s.period)%k != 0 {
+			if s.port.PeekIncoming() != nil {
+				progress = true // keep ticking until the accepting cycle
+			}
+
+			break
+		}
+
 		m := s.port.RetrieveIncoming()
 		if m == nil {
 			break
@@ -52,6 +62,10 @@ func (s *memStub) Tick() bool {
 		progress = true
 		meta := messaging.MsgMeta{ID: timing.GetIDGenerator().Generate(), Src: s.port.AsRemote(), Dst: m.Meta().Src, RspTo: m.Meta().ID}
 		at := now + uint64(s.w.C.MemDelay)*s.period
+
+		if s.w.C.MemAcceptEvery > 1 {
+			s.w.Faults["memory-back-pressure"]++
+		}
 
 		switch r := m.(type) {
 		case memprotocol.ReadReq:
@@ -67,6 +81,10 @@ func (s *memStub) Tick() bool {
 			}
 
 			s.pending = append(s.pending, stubRsp{at, memprotocol.WriteDoneRsp{MsgMeta: meta}})
+		}
+
+		if s.w.C.MemAcceptEvery > 1 {
+			break
 		}
 	}
 
